@@ -2,6 +2,7 @@ import VModel.Filters
 import VProofs.C05
 import VProofs.Lemmas.FiltBounds
 import VProofs.Lemmas.FiltTagger
+import VProofs.Lemmas.FiltCommute
 /-!
 # C15 — Post-filters apply exactly their rule and nothing else
 
@@ -142,6 +143,50 @@ theorem C15_idem_graphemes (ls : List Nat) (s s' : Sentence) (h : Inv s) (hpos :
 theorem C15_idem_tagger (rules : TagRules) (s s' : Sentence) (h : Inv s) (hf : filterTagger rules s = .ok s') :
     filterTagger rules s' = .ok s' := by
   exact C15L.tagger_idem rules s s' h.bounds_len h.tags_len hf
+
+/-! ## order independence -/
+
+/-- the two filters that clear boundaries (character-type filter, grapheme filter) commute with each other and among themselves:
+the order of the letters of `--wsconst` does not matter -/
+theorem C15_clearing_filters_commute (s : Sentence) (h : Inv s) (t1 t2 : Nat) (ls : List Nat) (hpos : ∀ l ∈ ls, 1 ≤ l)
+    (hsum : ls.sum = s.text.length) :
+    ((filterWsConst t1 s).bind (filterWsConst t2) = (filterWsConst t2 s).bind (filterWsConst t1)) ∧
+    ((filterWsConst t1 s).bind (filterGraphemes ls) = (filterGraphemes ls s).bind (filterWsConst t1)) := by
+  obtain ⟨a, ea, hla, hpa⟩ := C15_wsconst t1 s h
+  have ha : Inv { s with bounds := a } := Inv.ofC (C15L.invC_bounds h.toC hla)
+  constructor
+  · obtain ⟨b, eb, hlb, hpb⟩ := C15_wsconst t2 s h
+    have hb : Inv { s with bounds := b } := Inv.ofC (C15L.invC_bounds h.toC hlb)
+    obtain ⟨a', ea', hla', hpa'⟩ := C15_wsconst t2 _ ha
+    obtain ⟨b', eb', hlb', hpb'⟩ := C15_wsconst t1 _ hb
+    rw [ea, eb]
+    simp only [Res.bind]
+    rw [ea', eb']
+    rw [C15L.pointwise_comm
+      (fun i x => if s.types[i]? = some t1 ∧ s.types[i + 1]? = some t1 then B.N else x)
+      (fun i x => if s.types[i]? = some t2 ∧ s.types[i + 1]? = some t2 then B.N else x)
+      (fun i x => C15L.clear_clear_comm _ _ x)
+      s.bounds a a' b b' hla hla' hlb hlb' hpa hpa' hpb hpb']
+  · obtain ⟨b, eb, hlb, hpb⟩ := C15_graphemes ls s h hpos hsum
+    have hb : Inv { s with bounds := b } := Inv.ofC (C15L.invC_bounds h.toC hlb)
+    obtain ⟨a', ea', hla', hpa'⟩ := C15_graphemes ls _ ha hpos hsum
+    obtain ⟨b', eb', hlb', hpb'⟩ := C15_wsconst t1 _ hb
+    rw [ea, eb]
+    simp only [Res.bind]
+    rw [ea', eb']
+    rw [C15L.pointwise_comm
+      (fun i x => if s.types[i]? = some t1 ∧ s.types[i + 1]? = some t1 then B.N else x)
+      (fun i x => if (i + 1) ∈ clusterEdges ls 0 then x else B.N)
+      (fun i x => C15L.clear_keep_comm _ _ x)
+      s.bounds a a' b b' hla hla' hlb hlb' hpa hpa' hpb hpb']
+
+/-- the line-break filter does NOT commute with them in general (it sets boundaries that the others clear), which is why the
+Tantivy tokenizer applies it first: a concrete sentence on which the two orders differ -/
+example : ∃ s : Sentence, Inv s ∧
+    (filterLinebreaks s).bind (filterWsConst 6) ≠ (filterWsConst 6 s).bind filterLinebreaks := by
+  refine ⟨{ Sentence.default with text := ['\n', '\n'], types := [6, 6], bounds := [.U] }, ?_, ?_⟩
+  · exact ⟨by decide, by decide, by decide, by decide, by decide⟩
+  · decide
 
 /-! ## non-vacuity -/
 
